@@ -36,6 +36,16 @@ type fnInfo struct {
 	isPkgInit bool
 }
 
+// WorkerCache holds per-worker (single-threaded) caches shared by successive paths.
+type WorkerCache struct {
+	infos  map[*ssa.Function]*fnInfo
+	consts map[*ssa.Const]value
+}
+
+func NewWorkerCache() *WorkerCache {
+	return &WorkerCache{infos: map[*ssa.Function]*fnInfo{}, consts: map[*ssa.Const]value{}}
+}
+
 // Limits bound a single path.
 type Limits struct {
 	MaxSteps      int64
@@ -127,6 +137,18 @@ type Machine struct {
 	KnownPanicOK func(where string) bool
 	ss       *syncState
 	now      int64
+	wc       *WorkerCache
+	lastPkg  *ssa.Package
+	fcount   map[*fnInfo]int
+}
+
+func (m *Machine) info(fn *ssa.Function) *fnInfo {
+	if fi, ok := m.wc.infos[fn]; ok {
+		return fi
+	}
+	fi := m.P.info(fn)
+	m.wc.infos[fn] = fi
+	return fi
 }
 
 func NewProgram(prog *ssa.Program, sizes types.Sizes) *Program {
@@ -208,8 +230,12 @@ func (p *Program) info(fn *ssa.Function) *fnInfo {
 	return act.(*fnInfo)
 }
 
-func NewMachine(p *Program, s *smt.Solver, lim Limits, prefix []uint64) *Machine {
+func NewMachine(p *Program, s *smt.Solver, lim Limits, prefix []uint64, wc *WorkerCache) *Machine {
+	if wc == nil {
+		wc = NewWorkerCache()
+	}
 	m := &Machine{
+		wc: wc,
 		P: p, F: term.NewFactory(), S: s, Lim: lim,
 		globals:  make(map[*ssa.Global]*value),
 		pkgState: make(map[*ssa.Package]int),
@@ -466,7 +492,10 @@ func (m *Machine) assertCond(label string, c value, kind string) {
 				panic(pathAbort{"unsupported", "assertion " + label + " concretely false but path model unavailable"})
 			}
 			m.res.Violations = append(m.res.Violations, Violation{Label: label, Kind: kind, Model: mod, Where: m.where()})
-			panic(pathAbort{"done", "violation"})
+			// keep going: later obligations on this path are still checked (no masking)
+			if len(m.res.Violations) >= 8 {
+				panic(pathAbort{"done", "violation"})
+			}
 		}
 	case *term.Term:
 		neg := m.F.BNot(c)
@@ -486,7 +515,12 @@ func (m *Machine) assertCond(label string, c value, kind string) {
 				panic(pathAbort{"unsupported", "model error: " + err.Error()})
 			}
 			m.res.Violations = append(m.res.Violations, Violation{Label: label, Kind: kind, Model: mod, Where: m.where()})
-			panic(pathAbort{"done", "violation"})
+			// continue on the inputs that satisfy the assertion, if any
+			if len(m.res.Violations) >= 8 || m.check(c) == smt.Unsat {
+				panic(pathAbort{"done", "violation"})
+			}
+			m.addPC(c)
+			return
 		case smt.Unknown:
 			m.S.Pop()
 			m.unknown++
